@@ -281,6 +281,8 @@ class Gen:
             f = "iq"      # `from <this module> import ...` falls back to importing the module itself: a cycle
         if f in ("ii", "iq"):
             alias = self.fresh() if (force_alias or rng.chance(1, 2)) else None
+            if alias is None and target.split(b"/")[-1] in VARS:
+                alias = self.fresh()      # `import "pkg/x0"` would bind the name of a variable the program assigns later
             bound = alias if alias is not None else target.split(b"/")[-1]
             if is_ascii_ident(bound):
                 scope[bound] = ("mod", target)
